@@ -8,6 +8,8 @@
 //   thread <k>: <subs>     program of thread k (plain: k >= 1 foreign threads; elt: only k = 0)
 //   follow <k k k …>       directed schedule: which thread performs the next visible event
 //   schedule <ints>        raw detsched schedule
+//   spurious               the scheduler may wake a condition waiter that nobody notified (raw schedules only: the
+//                          `follow` chooser never picks such a move)
 //   subs: q<id> r<id> quit p<id> startLoop destroy
 // stdout: `T<k> <event>` lines, `# …` comments, then `done` | `blocked T0:<st> …`, then `--`.
 //   comments for the trace oracle (not compared with the model): `# T<k> call q|r <id>` / `# T<k> ret q|r <id>`,
@@ -60,6 +62,7 @@ std::vector<Subs> g_thread;               // index = k
 std::vector<int> g_follow;
 bool g_haveFollow = false;
 std::vector<int> g_schedule;
+bool g_spurious = false;
 
 size_t g_cursor = 0;                      // into g_follow
 std::set<size_t> g_missReported;
@@ -437,6 +440,8 @@ void readInput() {
       g_haveFollow = true;
     } else if (head == "schedule") {
       g_schedule = parseInts(w, 1);
+    } else if (head == "spurious") {
+      g_spurious = true;
     } else if (head == "task" || head == "pre" || head == "thread") {
       size_t colon = line.find(':');
       if (colon == std::string::npos) fail("missing ':' in '" + line + "'");
@@ -482,6 +487,7 @@ int main() {
   ds::observer() = &observer;
   ds::blockedHandler() = &blocked;
   if (g_haveFollow) ds::chooser() = &chooser;
+  ds::cfg().spurious = g_spurious;
 
   if (!g_elt) {
     muduo::net::EventLoop* loop = new muduo::net::EventLoop;   // stays alive until _exit
